@@ -72,7 +72,7 @@ func cmdMain(args []string) int {
 		fs.Parse(args[1:])
 		o.seed, _ = strconv.Atoi(envOr("VERIF_SEED", "0"))
 		if o.timeoutS == 0 {
-			o.timeoutS = 20
+			o.timeoutS = 30
 			if o.tier == "thorough" {
 				o.timeoutS = 60
 			}
